@@ -1,6 +1,6 @@
 from __future__ import annotations
 
-from typing_extensions import Union, TYPE_CHECKING
+from typing_extensions import Optional, Union, TYPE_CHECKING
 
 from .conclusion_selector import ExceptIf, Alternative, Next
 from .enums import RDREdge
@@ -16,6 +16,15 @@ if TYPE_CHECKING:
     from .entity import ConditionType
 
 
+def _graph_parent_(node: SymbolicExpression) -> Optional[SymbolicExpression]:
+    """
+    The parent of a node in the expression graph. `node._parent_` answers with the parent the node had in its last
+    evaluation first, which is no longer its parent once the tree was re-arranged after that evaluation.
+    """
+    parent = node._node_.parent
+    return parent.data if parent is not None else None
+
+
 def refinement(*conditions: ConditionType) -> SymbolicExpression[T]:
     """
     Add a refinement branch (ExceptIf node with its right the new conditions and its left the base/parent rule/query)
@@ -29,7 +38,7 @@ def refinement(*conditions: ConditionType) -> SymbolicExpression[T]:
     """
     new_branch = chained_logic(AND, *conditions)
     current_node = SymbolicExpression._current_parent_()
-    prev_parent = current_node._parent_
+    prev_parent = _graph_parent_(current_node)
     current_node._parent_ = None
     new_conditions_root = ExceptIf(SymbolicExpression._current_parent_(), new_branch)
     new_branch._node_.weight = RDREdge.Refinement
@@ -106,14 +115,14 @@ def alternative_or_next(
     # climb to the top of the chain the current node belongs to: over every alternative/next that was already
     # added to it and over the refinements of the rule itself (where the node is the left operand)
     while True:
-        parent = current_node._parent_
+        parent = _graph_parent_(current_node)
         if isinstance(parent, (Alternative, Next)):
             current_node = parent
         elif isinstance(parent, ExceptIf) and current_node is parent.left:
             current_node = parent
         else:
             break
-    prev_parent = current_node._parent_
+    prev_parent = _graph_parent_(current_node)
     current_node._parent_ = None
     if type_ == RDREdge.Alternative:
         new_conditions_root = Alternative(current_node, new_branch)
